@@ -39,7 +39,14 @@ def random_cases(rng, count):
         c.update(params(rng, s, n, exact=False))
         if rng.random() < 0.6:
             c["malpha_f"] = rng.uniform(0.1, 1.0) if rng.random() < 0.7 else rng.uniform(1.0, 4.0)
-        if rng.random() < 0.2:          # the same series on a level far above its variation (exact translation of the values)
+        if rng.random() < 0.12:         # wide dynamic range: large averages first, tiny ones afterwards (all positive, rectangle rule)
+            m = len(ys)
+            # (not dyadic: sums of dyadic values of this range are exact in binary64 and would hide an order-of-summation slip)
+            big, small = Fraction(100000, 3), Fraction(1, 3000)
+            wy = [(big if i < m // 2 else small) * rng.randint(1, 7) for i in range(m)]
+            c.update({"y": [R(v) for v in wy], "trule": "rectangle", "wide": True, "container": "array"})
+            c.pop("malpha_f", None)
+        elif rng.random() < 0.2:        # the same series on a level far above its variation (exact translation of the values)
             c["yoff"] = [rng.choice([-1, 1]), rng.choice([17, 20])]
         out.append(c)
     return out
